@@ -4,7 +4,7 @@ import json
 import hypothesis
 from hypothesis import HealthCheck, Phase, given, settings, strategies as st
 
-from pv import bgen, cgen, faults, gen, machine
+from pv import bgen, cgen, corpus, faults, gen, machine
 from pv.dump import dump
 from pv.props import common as C
 from pv.runner import Violation, stable_hash
@@ -50,7 +50,8 @@ WRITE_OPS = ['create_rp', 'update_rp', 'delete_rp', 'put_inventories',
              'put_allocations', 'put_allocations', 'put_allocations_existing',
              'put_allocations_existing', 'post_allocations',
              'post_allocations', 'delete_allocations', 'reshaper', 'reshaper',
-             'put_allocations_clear']
+             'put_allocations_clear', 'move_subtree', 'move_subtree',
+             'post_allocations_existing', 'delete_allocations_held']
 PROFILE = machine.Profile('c17', 'C17', ops=[(1, o) for o in WRITE_OPS],
                           oracles=[], nontrivial=lambda *a: False,
                           defect_rate=0)
@@ -58,6 +59,8 @@ PROFILE = machine.Profile('c17', 'C17', ops=[(1, o) for o in WRITE_OPS],
 
 def build_request(draw, d):
     name = draw(st.sampled_from(WRITE_OPS))
+    if name in corpus.EXTRA:
+        return corpus.EXTRA[name](draw, d, PROFILE)
     if name == 'put_allocations_existing':
         held = sorted(d.consumers)
         pairs = sorted(k for k in d.inventories
